@@ -169,6 +169,23 @@ def gen_case_dw(rng, tier, small=False):
     return c
 
 
+def gen_case_eq(rng):
+    """EQUAL start levels lmin == lmax (the initial space is the full grid of that level): steps that raise lmax in single dimensions while
+    other regions are never refined (benefit modes single / few / one-dim), mostly versions 6/7/8 without rebalancing"""
+    c = gen_case_dw(rng, 'quick', small=True)
+    dim = rng.choice([2, 2, 3])
+    lev = rng.choice([2, 2, 3]) if dim == 2 else 2
+    ab = [rng.choice(DW_BOXES) for _ in range(dim)]
+    c.update(dim=dim, lmin=lev, lmax=lev, steps=rng.randrange(2, 5), a=[x[0] for x in ab], b=[x[1] for x in ab], mb=False, legs=[],
+             version=rng.choice([6, 6, 7, 8, 6, 7, 8, 2, 3]), rebalancing=rng.random() < 0.3, boundary=rng.random() < 0.5,
+             benmodes=['single', 'few', 'one-dim', 'single'])
+    c['observers'] = [[] for _ in range(c['steps'] + 1)]
+    c['cont'] = [rng.choice(CONTMODES) for _ in range(c['steps'])]
+    nh = len(initial_hats(dim, lev, lev, c['boundary']))
+    c['npts'] = max(1, min(6, 400 // max(nh, 1)))
+    return c
+
+
 def gen_case_big(rng):
     """(h) sizes beyond internal thresholds: component grids with > 1024 points and a single interpolation call with > 2048 points"""
     c = gen_case_dw(rng, 'quick', small=True)
@@ -320,7 +337,7 @@ def steps_dw(case):
                     bens = [[float(Fraction(*x)) if isinstance(x, (list, tuple)) else float(x) for x in bd] for bd in fixed[self.round]]
                     mode = 'fixed'
                 else:
-                    mode, bens = dw.gen_benefits(st_rng['rng'], sizes, margin)
+                    mode, bens = dw.gen_benefits(st_rng['rng'], sizes, margin, mode=(st_rng['rng'].choice(case['benmodes']) if case.get('benmodes') else None))
                 self.modes.append(mode)
                 self.table = {}
                 for d, c in enumerate(conts):
@@ -672,6 +689,10 @@ def corpus_dw():
     for version in (6, 8, 7):
         out.append(dict(DW_BASE, dim=3, lmin=1, lmax=4, version=version, boundary=False, a=[0.0] * 3, b=[1.0] * 3, npts=1,
                         bens=[[l16, l16, l16], [z17, l17, l17]]))
+    # equal start levels lmin = lmax = 2: lmax is raised in one dimension at a time while the other intervals stay at the start level
+    f4, z4_, z5 = [[1, 1]] + [[0, 1]] * 3, [[0, 1]] * 4, [[0, 1]] * 5
+    for version, bd in [(6, True), (7, False), (8, True)]:
+        out.append(dict(DW_BASE, lmin=2, lmax=2, version=version, boundary=bd, bens=[[f4, z4_], [z5, f4], [[[1, 1]] + [[0, 1]] * 4, [[0, 1]] * 5]]))
     # strongly graded trees without rebalancing (large coarsening values: where the subtraction loops of 6/7/8 matter)
     for dim, version, nst, bd in [(2, 6, 4, True), (2, 7, 4, False), (2, 8, 4, True), (3, 6, 3, True), (3, 7, 3, False), (3, 8, 3, True)]:
         bens = [[[[1, 1]] + [[0, 1]] * (3 + k) for _ in range(dim)] for k in range(nst)]
@@ -705,6 +726,8 @@ def count_axes(chk, c, r, prefix):
         chk.count('%saxis-h:interpolation-call-with-%d-points' % (prefix, c['bigpts']))
     chk.count('%saxis-i:dim=%d' % (prefix, c['dim']))
     chk.count('%saxis-i:lmin=%d,lmax-lmin=%d' % (prefix, c['lmin'], c['lmax'] - c['lmin']))
+    if prefix == 'dw:' and c['lmin'] == c['lmax']:
+        chk.count('dw:axis-i:equal-start-levels:version=%d,rebalancing=%s' % (c['version'], c['rebalancing']))
 
 
 def side_oracles(chk, strat, c, r, fixed_case, scales=None):
@@ -1278,7 +1301,8 @@ def run(chk):
     # thorough tier: coqchk re-checks the C04-own modules only (the ESExact/C07/C08 closure takes > 30 min and is re-checked by C07/C08)
     chk.coq_obligations(coqchk_own=True)
     n_dw = chk.n(60, 900)
-    cases = corpus_dw() + [gen_case_dw(chk.rng, chk.tier) for _ in range(n_dw)] + [gen_case_big(chk.rng) for _ in range(chk.n(2, 12))]
+    cases = corpus_dw() + [gen_case_dw(chk.rng, chk.tier) for _ in range(n_dw)] + [gen_case_big(chk.rng) for _ in range(chk.n(2, 12))] + \
+        [gen_case_eq(chk.rng) for _ in range(chk.n(16, 250))]
     for c in cases[len(corpus_dw()):]:
         if chk.rng.random() < 0.3:
             c['companion'] = gen_companion(chk.rng, 'dw')
